@@ -13,6 +13,7 @@ META["trusted_base"] = META["trusted_base"] + ["T6 exact rationals stand for flo
 
 def run(ctx):
     comp_engine.run(ctx, "C13")
+    comp_engine.extra(ctx, "C13")
     comp_strategy.run(ctx)
 
 
